@@ -415,7 +415,7 @@ MANIFEST_TEXT = {
          "note": "interleaving at storage-call granularity; the race clause relies on the detector's happens-before analysis and is weak evidence when clean",
          "technique": SIM + ": seeded interleaving of several requests at the storage seam; race-detector build for the data-race clause"},
  "C11": {"text": "seeded typed OPL programs accepted by the real type checker, conforming stores, every declared (namespace, relation) checked under tape-chosen schedules: no schema error may surface; the rejection half is a plain generator check (not simulation), reported separately in the evidence",
-         "note": "acceptance is decided by keto's own parser; programs it rejects are skipped; one open known finding (KF-15) is reported as KNOWN-FINDING",
+         "note": "acceptance is decided by keto's own parser; programs it rejects are skipped; KF-15 and KF-18 were found by this check and are repaired in /repo",
          "technique": SIM + " for the run-time half (seeded scheduler at the storage seam); seeded generator check for the rejection half"},
  "C09": {"text": "seeded stores and depths with the storage order (shard ids) varied per execution; tree soundness, expand-once, depth, completeness against a reachability reference, agreement with check and with the REST/gRPC transports",
          "note": "narrow simulation target: the expand engine is sequential, the only nondeterminism is the storage order and paging; no faults",
@@ -436,7 +436,7 @@ MANIFEST_TEXT = {
          "note": "trusts the reference evaluator sim/ref.go, SQLite and the Go runtime between two storage calls; only the sqlite dialect runs; limits non-binding by the reference's criterion",
          "technique": SIM + ": seeded scheduler at the storage seam inside a synctest bubble, reference-model oracle"},
  "C02": {"text": "seeded search over cases with binding depth/width limits: fail-closed implication against the unbounded reference, and call-for-call trace equality of (request depth r, global g) vs (0, eff(r,g)) under the same schedule tape",
-         "note": "trusts the reference evaluator as the unbounded semantics; one open known finding (KF-08: cut below a negation is inverted) is reported as KNOWN-FINDING",
+         "note": "trusts the reference evaluator as the unbounded semantics; KF-08 (cut below a negation inverted into allowed) was found by this check and is repaired in /repo (828fc43)",
          "technique": SIM + ": same-tape differential execution under the seeded scheduler, reference-model oracle"},
  "C03": {"text": "per generated case the fault position k is enumerated over every storage call of the fault-free schedule (exhaustive when N <= limit) x {transient, persistent, ctx}; oracle: error or the fault-free answer, never error+allowed; cases are sampled",
          "note": "faults are fail-stop at the relationtuple.Manager / Traverser seam; limits non-binding so that the fault-free answer is one value",
